@@ -181,6 +181,14 @@ func runC01(c *Ctx) {
 	for _, d := range runeBoundaryDocs() {
 		docs = append(docs, wdoc{d, "rune-boundary"})
 	}
+	// every short sequence over the trigger alphabet of each extension (the sequences end a block:
+	// an extension's inline parser looks ahead from its trigger byte and must stop at the end)
+	for _, d := range triggerTokenDocs() {
+		docs = append(docs, wdoc{d, "trigger-tokens"})
+	}
+	for _, d := range scaledDocs(8192) {
+		docs = append(docs, wdoc{d, "scaled"})
+	}
 	// what the generator modules of the specification enumerate
 	for _, d := range generatedDocs(c, c.Pick(12000, 200000)) {
 		docs = append(docs, wdoc{d, "generated"})
